@@ -145,11 +145,21 @@ func worker(results chan<- result, files <-chan string, wg *sync.WaitGroup) {
 		res.file = file
 		f, err := os.Open(file)
 		if err != nil {
+			// Nothing to stat or read, report the error instead of touching a nil file
 			res.err = err
+			results <- res
+			continue
 		}
-		info, _ := f.Stat() //nolint: errcheck // The file is already open here so we can ignore the error
+		info, err := f.Stat()
+		if err != nil {
+			f.Close()
+			res.err = err
+			results <- res
+			continue
+		}
 		// Skip directories
 		if info.IsDir() {
+			f.Close()
 			continue
 		}
 		hash := sha256.New()
